@@ -43,6 +43,7 @@ def run(ck):
     ck.rule('R17.8', 'common base: ancestor-or-self of self from which other derives')
     ck.rule('R17.9', 'an unresolvable (dangling) super class does not hide what the other super classes provide')
     ck.rule('R17.10', 'class identity: Eq and Hash of the data reference agree and are by address')
+    ck.rule('R17.11', 'what is found in the tables of a class is handed out as belonging to that class')
 
     # ---- R17.1 ---------------------------------------------------------------------
     nx = next((f for f in L.fn_list if f['path'].startswith('<typemap::class::BaseClasses') and f['name'] == 'next'), None)
@@ -177,10 +178,24 @@ def run(ck):
                     ok = len(cv) == 1 and cv[0].get('k') == 'MCall' and cv[0].get('m') == sibs[fn['name']] and (H.root_local(cv[0]['recv']) or {}).get('hid') in pb
                     why = 'walker closure: %s' % pp(cl, maxlen=70)
                     # the name argument is forwarded
+                    bs = H.binding_sites(fn)
                     if ok:
-                        bs = H.binding_sites(fn)
                         fw = [bs.get((H.root_local(a) or {}).get('hid'), {}).get('kind') for a in cv[0]['args']]
                         ok = fw == ['param']
+                    else:
+                        # inlined form: the closure searches the table of the class it is given, by the wrapper's name parameter
+                        table = {'get_property': 'property_map', 'get_public_method': 'public_methods', 'get_type': 'inner_type_map', 'get_enum_by_variant': 'inner_type_map'}[fn['name']]
+                        reads = [x for x in walk(cl['body']) if x.get('k') == 'Field' and x.get('f') == table]
+                        lookups = []
+                        for x in H.calls_in(cl['body']):
+                            if x.get('k') == 'MCall' and x['args']:
+                                rr = H.strip_refs(x['recv'])
+                                if rr.get('k') == 'Field' and rr.get('f') == table:
+                                    lookups.append(x)
+                        ok = len(reads) == 1 and (H.root_local(reads[0]) or {}).get('hid') in pb and len(lookups) == 1 and \
+                            bs.get((H.root_local(lookups[0]['args'][0]) or {}).get('hid'), {}).get('kind') == 'param' and \
+                            not any(x.get('k') == 'MCall' and x.get('m') in sibs for x in H.calls_in(cl['body']))
+                        why = 'walker closure searches %s of the class it is given, by the name parameter' % table if ok else why
             ck.ob('R17.4', 'one-walker|%s' % fn['name'], ok, L.loc(fn['body']), why, fn=fn['path'])
     ck.floor('R17.4', n_sib, 4, 'lookup wrappers on Class')
 
@@ -412,3 +427,35 @@ def run(ck):
     cadt = L.adts.get('typemap::class::Class') or {}
     derives = {f.get('x') for f in L.fn_list if f['path'].startswith('<typemap::class::Class as') and f.get('x')}
     ck.ob('R17.10', 'class-derives-eq-and-hash-together', {'PartialEq', 'Hash'} <= derives or not derives, '', 'derived impls on Class: %s (field-wise over the data reference and the parent space)' % sorted(d for d in derives if d))
+
+    # ---- R17.11 owner of a looked-up member -----------------------------------------------------------------------------------------
+    # a property / method / inner type is built from an entry of `R.data.<table>` together with the class it belongs to; that class is
+    # R itself (the class whose table was searched), not the class the walk over the ancestors started from
+    n11 = 0
+    for fn in L.fn_list:
+        if not fn['path'].startswith('typemap::class::') and not fn['path'].startswith('<typemap::class::'):
+            continue
+        for r in walk(fn['body']):
+            if not (r.get('k') == 'Field' and r.get('f') in ('property_map', 'public_methods', 'inner_type_map')):
+                continue
+            owner = H.root_local(r)
+            if owner is None or 'typemap::class::Class' not in (L.ty(owner) or ''):
+                continue
+            # the scope the entry lives in: the nearest enclosing closure, else the function
+            scope = next((a for a in H.ancestors(fn, r) if a.get('k') == 'Closure'), None)
+            scope = scope['body'] if scope is not None else fn['body']
+            ch = r
+            handed = []
+            for x in walk(scope):
+                if x.get('k') == 'MCall' and x.get('m') == 'clone' and H.strip_refs(x['recv']).get('k') == 'Path' and 'typemap::class::Class' in (L.ty(H.strip_refs(x['recv'])) or ''):
+                    handed.append(H.strip_refs(x['recv']))
+            if not handed:
+                continue
+            n11 += 1
+            ck.analysed(fn['path'])
+            wrong = [h for h in handed if h.get('hid') != owner.get('hid')]
+            ck.ob('R17.11', 'owner-is-the-class-searched|%s|%s' % (short(fn['path']), r.get('f')), not wrong, L.loc(ch),
+                  'entries of %s.data.%s are handed out with %s.clone() as their class' % (owner.get('name'), r.get('f'), owner.get('name')) if not wrong else
+                  'an entry found in the %s of `%s` is handed out as belonging to `%s`: an inherited member claims to be declared by the class the lookup started from '
+                  '(its NOTIFY signal, overloads and inner types are then resolved from the wrong class)' % (r.get('f'), owner.get('name'), wrong[0].get('name')), fn=fn['path'])
+    ck.floor('R17.11', n11, 4, 'member tables read together with an owner class')
